@@ -249,6 +249,9 @@ func cmdCheck(args []string) int {
 
 	// triage violations against known findings
 	rc := 0
+	if *only == "" {
+		os.RemoveAll(filepath.Join(verifDir, "replay", id))
+	}
 	known, fixed := loadKnownFindings(id)
 	var vkeys []string
 	for k := range all.violations {
